@@ -547,7 +547,9 @@ fn run(case: &Value) -> Obs {
         a.sort();
         b.sort();
         if a == b && u.len() == u2.len() && (m1 != m2 || m11 != m12) {
-            return if has_dup {
+            // the specific cause of D13: a key is repeated AND the last-value-wins maps really differ
+            let map2: BTreeMap<String, String> = params_of(&u2).into_iter().collect();
+            return if has_dup && map1 != map2 {
                 o.fail("a repeated query key makes matching depend on the order of the parameters (last value wins)", "duplicate-key-order")
             } else {
                 o.fail("permuting the query parameters changes the matching key", "order-dependent")
@@ -599,8 +601,16 @@ fn run(case: &Value) -> Obs {
             let m: BTreeMap<String, String> = params_of(uu).into_iter().collect();
             m.into_iter().map(|(k, v)| (k.to_ascii_lowercase(), v.to_ascii_lowercase())).collect::<Vec<_>>()
         };
-        let mk_hit = |uu: &str| params_of(uu).iter().any(|kv| mk.iter().any(|m| m.eq_ignore_ascii_case(&kv.0)));
-        let sig = if im && (mk_hit(&u) || mk_hit(&u2)) {
+        // marketing classification (case-sensitive, as the code does it) of the collected keys
+        let mk_keys = |uu: &str| {
+            let m: BTreeMap<String, String> = params_of(uu).into_iter().collect();
+            let mut v: Vec<String> = m.keys().filter(|k| mk.contains(*k)).map(|k| k.to_ascii_lowercase()).collect();
+            v.sort();
+            v
+        };
+        // a key that is a marketing name up to ASCII case but not exactly
+        let near_mk = |uu: &str| params_of(uu).iter().any(|kv| !mk.contains(&kv.0) && mk.iter().any(|m| m.eq_ignore_ascii_case(&kv.0)));
+        let sig = if im && (near_mk(&u) || near_mk(&u2)) && mk_keys(&u) != mk_keys(&u2) {
             "case-marketing-name"
         } else if lower_sorted(&u) != lower_sorted(&u2) {
             "case-key-order"
